@@ -309,6 +309,13 @@ func evalGlobalExpression(m *ir.Module, handle ir.ExpressionHandle, overrideValu
 			return nil
 		}
 		return evalBinaryOp(k.Op, left, right)
+	case ir.ExprUnary:
+		// e.g. the negative literal of `override a: f32 = -6.0 - b;`
+		operand := evalGlobalExpression(m, k.Expr, overrideValues)
+		if operand == nil {
+			return nil
+		}
+		return evalUnaryOp(k.Op, operand)
 	case ir.ExprConstant:
 		if int(k.Constant) < len(m.Constants) {
 			c := &m.Constants[k.Constant]
